@@ -32,7 +32,11 @@ EXPLANATION = (
     "return the metadata just checked; the root is named by a constant identifier and prefix-stripping consumers agree "
     "with its length. R-C14-collect: the object collectors traverse exactly the storage kinds the naming sites use, "
     "with the same private-name filter, and the hook's list arm is entered for every list the collectors descend into "
-    "(fires today: the arm looks at obj[0] only -- known finding D18). Decides: name <-> storage slot bijection (hence uniqueness and eval(repr(o)) is o) "
+    "(fires today: the arm looks at obj[0] only -- known finding D18); the local collector recurses through lists to any "
+    "depth. R-C14-query: the top-level naming stores are dominated by the not-yet-constructed test (names are written "
+    "once), no query of NamedObject/Component* compares a prefix/suffix/substring/slice of a name, and no hierarchy query "
+    "keeps a memo on _dsl that _add_component/_delete_component do not invalidate. R-C02-cache-scope (dependency): block "
+    "metadata is re-parsed / cached per defining class, so re-elaboration yields the same names. Decides: name <-> storage slot bijection (hence uniqueness and eval(repr(o)) is o) "
     "and metadata consistency for every hierarchy shape. Not decided: user construct code that stores one object under "
     "two names or uses non-identifier attribute names; determinism of user construct code.")
 ASSUMPTIONS = [
@@ -1637,11 +1641,188 @@ def _str_leaf(env):
     return leaf
 
 
+# ---------------------------------------------------------------------------
+DSL_FILES = ('pymtl3/dsl/NamedObject.py', 'pymtl3/dsl/Component.py', 'pymtl3/dsl/ComponentLevel1.py',
+             'pymtl3/dsl/ComponentLevel2.py', 'pymtl3/dsl/ComponentLevel3.py', 'pymtl3/dsl/ComponentLevel4.py',
+             'pymtl3/dsl/ComponentLevel5.py', 'pymtl3/dsl/ComponentLevel6.py', 'pymtl3/dsl/ComponentLevel7.py')
+NAMING_FIELDS = {'my_name', 'full_name', 'parent_obj', 'level', 'elaborate_top', '_my_name', '_my_indices', 'NamedObject_fields'}
+SUBSTRING_METHODS = {'startswith', 'endswith', 'find', 'rfind', 'index', 'rindex', 'count', 'partition', 'rpartition'}
+COLLECTORS = {'_collect_objects_local', '_collect_all', '_collect_all_single', 'get_child_components', 'get_input_value_ports',
+              'get_output_value_ports', 'get_wires', 'get_local_object_filter', 'get_all_object_filter', 'get_all_components'}
+MUTATORS = ((COMP, 'Component._add_component'), (COMP, 'Component._delete_component'))
+
+
+def _name_valued(e, tainted):
+    """does the expression carry (part of) a hierarchical name: repr(x), x._dsl.full_name / my_name, get_field_name(),
+    or a local derived from one"""
+    for n in ast.walk(e):
+        if isinstance(n, ast.Call) and isinstance(n.func, ast.Name) and n.func.id == 'repr':
+            return True
+        if isinstance(n, ast.Call) and isinstance(n.func, ast.Attribute) and n.func.attr == 'get_field_name':
+            return True
+        if isinstance(n, ast.Attribute) and n.attr in ('full_name', 'my_name') and isinstance(n.value, ast.Attribute) \
+                and n.value.attr == '_dsl':
+            return True
+        if isinstance(n, ast.Name) and n.id in tainted:
+            return True
+    return False
+
+
+def _is_name_string(e, tainted):
+    """e itself is a name string (not a container of names)"""
+    if isinstance(e, ast.Name):
+        return e.id in tainted
+    if isinstance(e, ast.Call) and isinstance(e.func, ast.Name) and e.func.id in ('repr', 'str'):
+        return _name_valued(e, tainted)
+    if isinstance(e, ast.Attribute) and e.attr in ('full_name', 'my_name'):
+        return True
+    if isinstance(e, (ast.JoinedStr, ast.BinOp, ast.Subscript)):
+        return _name_valued(e, tainted)
+    return False
+
+
+def _substring_tests(func):
+    """comparisons that decide something from a *part* of a hierarchical name (prefix / suffix / substring / slice)"""
+    tainted = set()
+    for _ in range(3):
+        for n in ast.walk(func):
+            if isinstance(n, ast.Assign) and _name_valued(n.value, tainted):
+                for t in n.targets:
+                    for x in ([t] if isinstance(t, ast.Name) else t.elts if isinstance(t, (ast.Tuple, ast.List)) else []):
+                        if isinstance(x, ast.Name):
+                            tainted.add(x.id)
+    out = []
+    for n in ast.walk(func):
+        if isinstance(n, ast.Call) and isinstance(n.func, ast.Attribute) and n.func.attr in SUBSTRING_METHODS:
+            if _name_valued(n.func.value, tainted) or any(_name_valued(a, tainted) for a in n.args):
+                out.append(n)
+        elif isinstance(n, ast.Compare):
+            ops = [n.left] + list(n.comparators)
+            for i, op in enumerate(n.ops):
+                a, b = ops[i], ops[i + 1]
+                if isinstance(op, (ast.In, ast.NotIn)) and _name_valued(a, tainted) and _is_name_string(b, tainted):
+                    out.append(n)
+                elif isinstance(op, (ast.Eq, ast.NotEq)) and any(
+                        isinstance(x, ast.Subscript) and isinstance(x.slice, ast.Slice) and _name_valued(x.value, tainted)
+                        for x in (a, b)):
+                    out.append(n)
+    return out
+
+
+def _memos(cls_funcs):
+    """[(func, field)] : a get_* query that stores its (collector-derived) answer on <self>._dsl"""
+    out = []
+    for f in cls_funcs:
+        if not f.name.startswith('get_') or not f.args.args:
+            continue
+        me = f.args.args[0].arg
+        calls_collector = any(isinstance(n, ast.Call) and isinstance(n.func, ast.Attribute) and n.func.attr in COLLECTORS
+                              for n in ast.walk(f))
+        if not calls_collector:
+            continue
+        for n in ast.walk(f):
+            if isinstance(n, ast.Attribute) and isinstance(n.ctx, ast.Store) and isinstance(n.value, ast.Attribute) \
+                    and n.value.attr == '_dsl' and norm(n.value.value) == me:
+                out.append((f, n.attr))
+    return out
+
+
+_MEMO_PROBE = """
+class C:
+  def get_child_components( s, sort_key = None ):
+    try:
+      children = s._dsl.child_components
+    except AttributeError:
+      children = s._dsl.child_components = s._collect_objects_local( lambda x: True )
+    return list( children )
+"""
+_PREFIX_PROBE = """
+def get_all_object_filter( s, filt ):
+  prefix = repr(s)
+  return { x for x in s._dsl.elaborate_top._dsl.all_named_objects if repr(x).startswith( prefix ) and filt(x) }
+"""
+
+
+def rule_query(repo):
+    r = RuleResult('R-C14-query', "names are written once (top-level naming only for a not yet constructed object); hierarchy "
+                                  "queries decide containment structurally, never by a substring of a name, and keep no memo that "
+                                  "the hierarchy-mutating API does not invalidate")
+    # (a) write-once: self-naming stores are dominated by the not-yet-constructed test
+    n_root = 0
+    for fa, st, nms in _analysed(repo):
+        if not any(nm.kind == 'root' for nm in nms):
+            continue
+        me = fa.me
+        per = {}
+        for p in fa.paths:
+            for i, e in enumerate(p.events):
+                if e.kind == 'attr' and e.attr in NAMING_FIELDS and norm(e.obj) == f"{me}._dsl":
+                    r.evaluations += 1
+                    guarded = any(c.at <= i and any(norm(t) == f"{me}._dsl.constructed" and not pol for t, pol in c.atoms())
+                                  for c in p.conds)
+                    per.setdefault(pretty(norm(e.node)), []).append((guarded, e.node.lineno))
+        for cons, gl in sorted(per.items()):
+            n_root += 1
+            if all(g for g, _ in gl):
+                r.ok(fa.mod, fa.qual, cons)
+            else:
+                r.bad(fa.mod, fa.qual, cons, f"top-level naming metadata is (re)assigned on a path where `{me}._dsl.constructed` has "
+                      f"not been tested false: elaborate() on an already elaborated sub-component renames it to the root name "
+                      f"(duplicate name, parent/level lost)", gl[0][1])
+    if n_root < 5:
+        raise AnalysisError("anchor vanished: top-level naming stores in _elaborate_construct")
+    # (b) + (c) over the query API of the component classes
+    for probe, finder in ((_PREFIX_PROBE, lambda t: _substring_tests(t.body[0])),
+                          (_MEMO_PROBE, lambda t: _memos([x for x in t.body[0].body if isinstance(x, ast.FunctionDef)]))):
+        if not finder(ast.parse(probe)):
+            raise AnalysisError("R-C14-query: embedded positive example not recognised")
+    nfun = 0
+    memos = []
+    for rel in DSL_FILES:
+        if not repo.exists(rel):
+            continue
+        m = repo.mod(rel)
+        for cname, c in sorted(m.classes.items()):
+            if not (cname == 'NamedObject' or cname.startswith('Component')):
+                continue
+            funcs = [f for f in m._defs_in(c.body) if isinstance(f, ast.FunctionDef)]
+            for f in funcs:
+                nfun += 1
+                r.evaluations += 1
+                for n in _substring_tests(f):
+                    r.bad(m, f"{cname}.{f.name}", norm(n), "a prefix / suffix / substring / slice of a hierarchical name is "
+                          "compared: names are dotted paths with indices (`s.reg` is a prefix of `s.reg_next`, `s.a[1]` of "
+                          "`s.a[10]`), so this is not a containment test -- use the parent chain or a subtree walk", n.lineno)
+            for f, fld in _memos(funcs):
+                memos.append((m, cname, f, fld))
+    if nfun < 80:
+        raise AnalysisError(f"anchor vanished: query API of the component classes ({nfun} methods found)")
+    r.ok(repo.mod(COMP), '<dsl component classes>', f"no name-substring test in {nfun} methods of NamedObject / Component*")
+    for m, cname, f, fld in memos:
+        for rel, qual in MUTATORS:
+            mf = repo.mod(rel).get_func(qual)
+            inval = any(isinstance(n, ast.Attribute) and n.attr == fld and isinstance(n.ctx, (ast.Store, ast.Del))
+                        for n in ast.walk(mf))
+            cons = f"memo _dsl.{fld} vs {qual}"
+            if inval:
+                r.ok(m, f"{cname}.{f.name}", cons)
+            else:
+                r.bad(m, f"{cname}.{f.name}", cons, f"the query memoises its answer in _dsl.{fld} but {qual} never deletes / "
+                      f"recomputes it: after replace_component / delete the query still returns the removed object (same name "
+                      f"as its live replacement, eval(name) is not it)", f.lineno)
+    if not memos:
+        r.ok(repo.mod(COMP), '<dsl component classes>', "no hierarchy query keeps a memo on _dsl (embedded example recognised)",
+             nontrivial=False)
+    r.require_floor(7)
+    return r
+
+
 # dependency: re-elaborating the same construction code must yield the same names -- lambda / update blocks are re-parsed
 # per elaboration and cached per defining class (decided by C02's cache-scope rule)
 from rules.c02 import rule_cache_scope      # noqa: E402
 
-RULES = [rule_name_storage, rule_cache, rule_meta, rule_reassign, rule_siblings, rule_api, rule_collect, rule_cache_scope]
+RULES = [rule_name_storage, rule_cache, rule_meta, rule_reassign, rule_siblings, rule_api, rule_collect, rule_query,
+         rule_cache_scope]
 
 # ---------------------------------------------------------------------------
 # self-test of the checker (thorough tier)
@@ -1788,6 +1969,22 @@ MUTANTS = [
        "      elif isinstance( u, list ):\n        ret.update( v for v in u if filt( v ) )\n    if sort_key:", 'R-C14-collect'),
     _m('local-collector-takes-private-fields', COMP, "        if name[0] != '_': # filter private variables\n          stack.append( obj )\n    while stack:",
        "        if True:\n          stack.append( obj )\n    while stack:", 'R-C14-collect'),
+    dict(name='root-naming-before-constructed-guard', rule='R-C14-query', edits=[
+        dict(file=NAMED, old="  def _elaborate_construct( s ):\n\n    if s._dsl.constructed:\n", new="  def _elaborate_construct( s ):\n\n    if False:\n", count=1),
+        dict(file=NAMED, old="    s._dsl.elaborate_top = s\n    s._dsl.NamedObject_fields = set()\n",
+             new="    s._dsl.elaborate_top = s\n    if s._dsl.constructed:\n      return\n    s._dsl.NamedObject_fields = set()\n", count=1)]),
+    _m('root-naming-unguarded', NAMED, "  def _elaborate_construct( s ):\n\n    if s._dsl.constructed:\n", "  def _elaborate_construct( s ):\n\n    if s._dsl.constructed and False:\n",
+       'R-C14-query'),
+    _m('subtree-query-by-name-prefix', COMP, "      return s._collect_all_single( filt )",
+       "      prefix = repr(s)\n      return { x for x in s._dsl.elaborate_top._dsl.all_named_objects if repr(x).startswith( prefix ) and filt(x) }",
+       'R-C14-query'),
+    _m('subtree-query-by-name-substring', COMP, "      return s._collect_all_single( filt )",
+       "      return { x for x in s._dsl.elaborate_top._dsl.all_named_objects if s._dsl.full_name in x._dsl.full_name and filt(x) }",
+       'R-C14-query'),
+    _m('child-query-memoised-never-invalidated', COMP, "    return s._collect_objects_local( lambda x: isinstance( x, Component ), sort_key )",
+       "    try:\n      children = s._dsl.child_components\n    except AttributeError:\n"
+       "      children = s._dsl.child_components = s._collect_objects_local( lambda x: isinstance( x, Component ) )\n"
+       "    return sorted( children, key = sort_key ) if sort_key else list( children )", 'R-C14-query'),
     _m('level-getter-off-by-one', COMP, "      return s._dsl.level\n", "      return s._dsl.level + 1\n", 'R-C14-api'),
 ]
 
